@@ -494,7 +494,7 @@ fn compute_approx_binomial_lower_bound(
     }
     if num_samples == 1 {
         let delta = num_std_dev.tail_probability();
-        let raw_lb = (1.0 - delta).ln() / (1.0 - theta).ln();
+        let raw_lb = (1.0 - delta).ln() / (-theta).ln_1p();
         return raw_lb.floor(); // round down
     }
     if num_samples > 120 {
@@ -532,7 +532,7 @@ fn compute_approx_binomial_upper_bound(
     }
     if num_samples == 0 {
         let delta = num_std_dev.tail_probability();
-        let raw_ub = delta.ln() / (1.0 - theta).ln();
+        let raw_ub = delta.ln() / (-theta).ln_1p();
         return raw_ub.ceil(); // round up
     }
     if num_samples > 120 {
